@@ -62,6 +62,30 @@ def compile_cases(cases, cfg, d, extra_prelude=''):
     raise RuntimeError('compile failure loop did not converge')
 
 
+def pool_run(ids, nj, ll, good, opts):
+    """process pool that survives a crashing worker (solver segfault): unfinished cases are re-run one per fresh process"""
+    from concurrent.futures import ProcessPoolExecutor, as_completed
+    from concurrent.futures.process import BrokenProcessPool
+    ctx = mp.get_context('fork'); done = {}
+    def run(some, workers):
+        try:
+            with ProcessPoolExecutor(workers, mp_context=ctx, initializer=runner._init_worker, initargs=(ll, good, opts)) as ex:
+                futs = {ex.submit(runner.run_case_worker, i): i for i in some}
+                for f in as_completed(futs):
+                    try: done[futs[f]] = f.result()
+                    except BrokenProcessPool: pass
+                    except Exception as e: done[futs[f]] = {'id': futs[f], 'status': 'error', 'error': repr(e)[:300]}
+        except BrokenProcessPool:
+            pass
+    run(ids, nj)
+    left = [i for i in ids if i not in done]
+    if left and len(left) > 4: run(left, max(2, nj // 2)); left = [i for i in ids if i not in done]
+    for i in left:
+        run([i], 1)
+        if i not in done: done[i] = {'id': i, 'status': 'inconclusive', 'error': 'worker process died (solver crash) on this case', 'steps': 0}
+    return [done[i] for i in ids]
+
+
 def fbytes(bs, a, i):
     raw = int.from_bytes(bs[i * a.es:(i + 1) * a.es], 'little')
     return raw
@@ -97,8 +121,7 @@ def run_batch(tag, cases, cfg, opts=None, extra_prelude=''):
     ids = [c.id for c in good]
     nj = min(NPROC, len(ids))
     if nj > 1 and not opts.get('serial'):
-        with mp.get_context('fork').Pool(nj, initializer=runner._init_worker, initargs=(ll, good, opts)) as pool:
-            results = pool.map(runner.run_case_worker, ids, chunksize=1)
+        results = pool_run(ids, nj, ll, good, opts)
     else:
         runner._init_worker(ll, good, opts)
         results = [runner.run_case_worker(i) for i in ids]
